@@ -748,6 +748,20 @@ func RunReplay(path, repo, verifDir string) int {
 		fmt.Fprintln(os.Stderr, err)
 		return 2
 	}
+	genTmp, err := os.MkdirTemp("", "hcsym-gen-")
+	if err != nil {
+		fmt.Fprintln(os.Stderr, err)
+		return 2
+	}
+	defer os.RemoveAll(genTmp)
+	gen, err := Generate(repo, filepath.Join(verifDir, "harness", rec.Property), genTmp)
+	if err != nil {
+		fmt.Fprintln(os.Stderr, err)
+		return 2
+	}
+	for virt, real := range gen {
+		realOf[virt] = real
+	}
 	o := CheckOptions{Prop: rec.Property, Tier: rec.Tier, Repo: repo, VerifDir: verifDir}
 	outs, err := runNative(o, realOf, []*nativeInput{{Harness: rec.Harness, Package: rec.Package, Vals: rec.Vals}})
 	if err != nil {
